@@ -367,11 +367,11 @@ func (e *Enforcer) applyModifiedModel(newModel model.Model) error {
 	if e.autoBuildRoleLinks {
 		needToRebuild = true
 
-		if err := e.rebuildRoleLinks(newModel); err != nil {
+		if err = e.rebuildRoleLinks(newModel); err != nil {
 			return err
 		}
 
-		if err := e.rebuildConditionalRoleLinks(newModel); err != nil {
+		if err = e.rebuildConditionalRoleLinks(newModel); err != nil {
 			return err
 		}
 	}
